@@ -255,7 +255,7 @@ namespace detail
 	{
 		GLM_STATIC_ASSERT(std::numeric_limits<T>::is_integer, "'bitfieldExtract' only accept integer inputs");
 
-		return (Value >> static_cast<T>(Offset)) & static_cast<T>(detail::mask(Bits));
+		return (Value >> static_cast<T>(Offset)) & detail::mask(static_cast<T>(Bits));
 	}
 
 	// bitfieldInsert
